@@ -1222,3 +1222,104 @@ package participle
 //@ func (*ParseError).Error [C06]
 //@   requires p != nil
 //@   before call participle.FormatError#1: assert err == iface(p)
+
+// ---------------------------------------------------------------------------------------------
+// ebnf.go (C14): Parser.String() does not panic on a well-formed grammar; a production is printed when it is first
+// met and never again, and the production of the root comes first. That the text is EBNF the ebnf package parses,
+// and complete, is a language-membership statement: bounded stand-ins of C14.
+// ---------------------------------------------------------------------------------------------
+
+// Production nodes carry the (non-nil) reflect.Type they were built for (parseType / addUnionDefs / addCustomDefs
+// store the type they were called with); parseable nodes likewise.
+//@ lemma wfTyped(n node)
+//@   axiom
+//@   requires wf(n)
+//@   ensures typeis(n, *strct) ==> n.(*strct).typ != nil
+//@   ensures typeis(n, *union) ==> n.(*union).typ != nil
+//@   ensures typeis(n, *custom) ==> n.(*custom).typ != nil
+//@   ensures typeis(n, *parseable) ==> n.(*parseable).t != nil
+
+//@ func startsWithNegation [C14]
+//@   requires wf(n)
+//@   pure
+//@   use wfKinds(n) at entry
+//@   use wfGroup(n.(*group)) at entry
+//@   use wfCapture(n.(*capture)) at entry
+//@   use wfSequence(n.(*sequence)) at entry
+
+//@ func endsWithModifier [C14]
+//@   requires wf(n)
+//@   pure
+//@   use wfKinds(n) at entry
+//@   use wfGroup(n.(*group)) at entry
+//@   use wfCapture(n.(*capture)) at entry
+//@   use wfNegation(n.(*negation)) at entry
+//@   use wfSequence(n.(*sequence)) at entry
+
+// productionName: the name of a node is fixed the first time it is asked for; `first` is true exactly then.
+//@ func productionName [C14]
+//@   requires seen != nil && t != nil
+//@   modifies mapof(seen)
+//@   ensures has(seen, n) && seen[n] == result0
+//@   ensures result1 == !old(has(seen, n))
+//@   ensures old(has(seen, n)) ==> result0 == old(seen[n])
+//@   ensures forallt(k, node, k != n ==> has(seen, k) == old(has(seen, k)) && seen[k] == old(seen[k]))
+
+// buildEBNF: `p`, the production being written, may be missing only where a production node starts a new one
+// (ebnf passes nil for the root). Productions are only ever appended to *outp, and a production node that is met
+// for the first time is appended before anything its body mentions: at position old(len(*outp)).
+//@ func buildEBNF [C14]
+//@   requires wf(n) && seen != nil && outp != nil && (p != nil || typeis(n, *strct) || typeis(n, *union))
+//@   requires forall(k, 0, len(*outp), (*outp)[k] != nil)
+//@   modifies mapof(seen), *outp, p.out
+//@   ensures len(*outp) >= old(len(*outp)) && forall(k, 0, old(len(*outp)), (*outp)[k] == old((*outp)[k]))
+//@   ensures forall(k, 0, len(*outp), (*outp)[k] != nil)
+//@   ensures @rootFirst (typeis(n, *strct) || typeis(n, *union)) && !old(has(seen, n)) ==> len(*outp) > old(len(*outp)) && (*outp)[old(len(*outp))].name == seen[n]
+//@   ensures @once (typeis(n, *strct) || typeis(n, *union)) && old(has(seen, n)) ==> len(*outp) == old(len(*outp))
+//@   ensures forallt(k, node, old(has(seen, k)) ==> has(seen, k) && seen[k] == old(seen[k]))
+//@   use wfKinds(n) at entry
+//@   use wfTyped(n) at entry
+//@   use wfDisjunction(n.(*disjunction)) at entry
+//@   use wfStrct(n.(*strct)) at entry
+//@   use wfUnion(n.(*union)) at entry
+//@   use wfDisjunction(&n.(*union).disjunction) at entry
+//@   use wfSequence(n.(*sequence)) at entry
+//@   use wfCapture(n.(*capture)) at entry
+//@   use wfNegation(n.(*negation)) at entry
+//@   use wfGroup(n.(*group)) at entry
+//@   use wfLookahead(n.(*lookaheadGroup)) at entry
+//@   use wfKinds(n.(*group).expr) at entry
+//@   use wfCapture(n.(*group).expr.(*capture)) at entry
+//@   use wfKinds(n.(*group).expr.(*capture).node) at entry
+//@   use wfGroup(n.(*group).expr.(*group)) at entry
+//@   use wfGroup(n.(*group).expr.(*capture).node.(*group)) at entry
+//@   loop 1 invariant -1 <= rangeindex && rangeindex < len(n.nodes) && p != nil
+//@   loop 1 invariant len(*outp) >= old(len(*outp)) && forall(k, 0, old(len(*outp)), (*outp)[k] == old((*outp)[k])) && forall(k, 0, len(*outp), (*outp)[k] != nil)
+//@   loop 1 invariant forallt(k, node, old(has(seen, k)) ==> has(seen, k) && seen[k] == old(seen[k]))
+//@   loop 1 decreases len(n.nodes) - rangeindex
+//@   loop 2 invariant -1 <= rangeindex && rangeindex < len(n.disjunction.nodes) && p != nil
+//@   loop 2 invariant len(*outp) > old(len(*outp)) && forall(k, 0, old(len(*outp)), (*outp)[k] == old((*outp)[k])) && forall(k, 0, len(*outp), (*outp)[k] != nil)
+//@   loop 2 invariant (*outp)[old(len(*outp))].name == name && has(seen, iface(n)) && seen[iface(n)] == name && !old(has(seen, iface(n)))
+//@   loop 2 invariant forallt(k, node, old(has(seen, k)) ==> has(seen, k) && seen[k] == old(seen[k]))
+//@   loop 2 decreases len(n.disjunction.nodes) - rangeindex
+//@   loop 3 invariant (n != nil ==> wf(iface(n))) && p != nil
+//@   loop 3 invariant len(*outp) >= old(len(*outp)) && forall(k, 0, old(len(*outp)), (*outp)[k] == old((*outp)[k])) && forall(k, 0, len(*outp), (*outp)[k] != nil)
+//@   loop 3 invariant forallt(k, node, old(has(seen, k)) ==> has(seen, k) && seen[k] == old(seen[k]))
+//@   loop 3 nonterminating-ok
+//@   use wfSequence(n) at loop 3
+
+// ebnf: the k-th line of the text is made from the k-th production, and the first production is the root's.
+//@ func ebnf [C14]
+//@   requires wf(n)
+//@   use wfKinds(n) at entry
+//@   let sn map[node]string = arg2 after call participle.buildEBNF#1
+//@   let sn map[node]string = arg2 after call participle.buildEBNF#2
+//@   loop 1 invariant -1 <= rangeindex && rangeindex < len(outp) && len(out) == rangeindex + 1 && forall(k, 0, len(outp), outp[k] != nil)
+//@   loop 1 invariant len(outp) >= 1
+//@   loop 1 invariant outp[0].name == sn[n]
+//@   loop 1 decreases len(outp) - rangeindex
+//@   before call fmt.Sprintf#1: assert format == "%s = %s ." && len(a) == 2 && a[0] == iface(outp[len(out)].name) && a[1] == iface(outp[len(out)].out)
+//@   after loop 1: assert len(out) == len(outp) && len(outp) >= 1 && outp[0].name == sn[n]
+
+//@ func (*Parser[G]).String [C14]
+//@   requires p != nil && has(p.typeNodes, p.rootType) && wf(p.typeNodes[p.rootType])
